@@ -334,6 +334,7 @@ def run(ctx):
     C09.r12_close_is_never_cancelled(ctx)   # neither close() nor the registration of a new session in the pool is raced against a timer: a session that is not registered is never reaped
     C09.r1_locks(ctx)        # the pool never waits on a lock it holds itself (a request that meets a dead entry still returns)
     C13.r7_pool_config_is_what_was_given(ctx)   # the reaper works with the configured idle minimum / timeout / interval
+    C09.r8_io_error_closes(ctx)   # ... whatever kind of I/O error ended it (ETIMEDOUT from TCP keepalive is how a vanished peer shows up)
     C09.r3_recv_exits(ctx)   # every way the receive loop ends closes the session: a pooled session whose connection died reports closed
     C09.r4_close_body(ctx)   # close() raises the closed flag before it starts tearing the session down: is_closed(), which both the reuse path and the reaper rely on, is true for a dying session
     C13.r4_pool_keys(ctx)    # one key per session: a colliding key silently evicts (drops, never closes) a healthy pooled session
